@@ -234,12 +234,12 @@ func (mq *modelQuery) runWith(workdir string, bounds []string) error {
 // ---- Go literal construction ----
 
 type goGen struct {
-	pkg     *types.Package
-	imports map[string]string // path -> name
-	mq      *modelQuery
-	o       *Oblig
-	inputs  map[string]string
-	fail    string
+	pkg       *types.Package
+	imports   map[string]string // path -> name
+	mq        *modelQuery
+	o         *Oblig
+	inputs    map[string]string
+	fail      string
 	quantNote bool
 	needHsum  bool
 }
@@ -523,16 +523,16 @@ func (g *goGen) supported(t types.Type, depth int) bool {
 // ---- clause -> Go ----
 
 type clauseGen struct {
-	g      *goGen
-	vars   map[string]string // spec identifier -> Go expression
-	pre    []string          // statements to run before the call (old(...) snapshots)
-	ok     bool
-	why    string
-	db     *SpecDB
-	eng    *Engine
-	nold   int
-	inOld  bool
-	bound  map[string]string
+	g     *goGen
+	vars  map[string]string // spec identifier -> Go expression
+	pre   []string          // statements to run before the call (old(...) snapshots)
+	ok    bool
+	why   string
+	db    *SpecDB
+	eng   *Engine
+	nold  int
+	inOld bool
+	bound map[string]string
 }
 
 func (c *clauseGen) bad(why string) string {
